@@ -140,6 +140,29 @@ pub fn run(out: &mut Out, rng: &mut Rng, thorough: bool) {
 			}
 		}
 	}
+	// Collection sizes at every header-width boundary of the formats (MessagePack
+	// fix/16/32 headers, and well past any preallocation cap a transcoder might
+	// apply to size hints): arrays and maps of N elements, at the root and nested.
+	let sizes: &[usize] = if thorough { &[15, 16, 17, 255, 256, 4095, 4096, 4097, 65535, 65536, 70001] } else { &[15, 16, 17, 4096, 4097, 65536] };
+	for &n in sizes {
+		let arr = Val::Seq((0..n).map(|i| Val::Int((i % 7) as i128)).collect());
+		let map = Val::Map((0..n).map(|i| (Val::Str(format!("k{i}")), Val::Int((i % 5) as i128))).collect());
+		let nested = Val::Map(vec![(Val::Str("a".into()), arr.clone()), (Val::Str("m".into()), map.clone())]);
+		for v in [arr, map, nested] {
+			for &a in &ALL_FMTS {
+				for &b in &ALL_FMTS {
+					// Large sizes only for the pairs where they are cheap.
+					if n > 5000 && (a == Fmt::Yaml || b == Fmt::Yaml || a == Fmt::Toml || b == Fmt::Toml) && !thorough {
+						continue;
+					}
+					if v.representable(a) && v.representable(b) {
+						out.count("sizes.boundary_collections");
+						check_pair(out, rng, &v, a, b, &Spelling::plain());
+					}
+				}
+			}
+		}
+	}
 	// Non-finite floats for the targets that have them.
 	for x in [f64::INFINITY, f64::NEG_INFINITY, f64::NAN] {
 		for &a in &[Fmt::Yaml, Fmt::Toml, Fmt::Msgpack] {
